@@ -1167,6 +1167,8 @@ pub fn run_scenario(sc: &Scenario, prefix: &[u32], expect_n: &[u32], config_path
                     pgcat::config::get_config(),
                 )
                 .await;
+                // the process is gone from this instant: tasks woken by the loop's teardown write nothing
+                pgcat::verif::net::set_process_gone();
                 net2.lock().push(Rec::Note { msg: "MAIN-LOOP-EXIT".into() });
                 exited2.store(true, Ordering::Relaxed);
             });
